@@ -11,6 +11,7 @@ use serde_json::{json, Value};
 use std::cell::RefCell;
 use std::collections::{BTreeMap, BTreeSet, HashMap, VecDeque};
 
+
 // ---------------------------------------------------------------------------------------
 // Reference-model abstraction over the two sets
 // ---------------------------------------------------------------------------------------
@@ -193,85 +194,104 @@ pub fn check_decode<M: RefModel>(run: &mut Run) {
     ];
 
     // ---- (a) graph x model product -----------------------------------------------------
-    let g = Graph::<M::D>::extract();
+    let g = Graph::<M::D>::extract_with_cap(crate::graph::state_cap(run.tier == Tier::Thorough));
     if !g.closed {
         run.inconclusive.push(format!(
-            "{set}: decoder has more than {} distinguishable states; graph layer skipped, black-box layers only",
-            crate::graph::STATE_CAP
+            "{set}: decoder has more than {} distinguishable states; the graph layers cover only the part explored (BFS order), the black-box layers are unaffected",
+            g.cap
         ));
     }
-    let mut seen: BTreeSet<(usize, M::Ctx)> = BTreeSet::new();
-    let mut q: VecDeque<(usize, M::Ctx)> = VecDeque::new();
+    // model transition table, computed once
+    let ctxs = M::all();
+    let cidx = |c: M::Ctx| ctxs.iter().position(|x| *x == c).unwrap();
+    let mtab: Vec<Vec<(Out, usize)>> = ctxs.iter().map(|c| (0..=255u8).map(|b| { let (o, n) = M::step(*c, b); (o, cidx(n)) }).collect()).collect();
+    let nexp = g.expanded();
+    let mut seen = vec![false; nexp * ctxs.len()];
+    let mut q: VecDeque<(usize, usize)> = VecDeque::new();
+    let mut pairs = 0u64;
     let mut cells = 0u64;
     let mut events = 0u64;
     let mut errors = 0u64;
     let mut nones = 0u64;
-    if g.closed {
-        seen.insert((0, M::start()));
-        q.push_back((0, M::start()));
-        while let Some((s, c)) = q.pop_front() {
-            let hist = g.history(s);
-            for b in 0..=255u8 {
-                cells += 1;
-                run.eval(1);
-                let (want, cnext) = M::step(c, b);
-                let nontrivial = c != M::start() || matches!(want, Out::Ev(..));
-                if nontrivial {
-                    run.nontrivial_fp(fp(&("cell", M::name(c), b)));
+    let mut nt_seen = vec![false; ctxs.len() * 256];
+    let start_c = cidx(M::start());
+    if nexp > 0 {
+        seen[start_c] = true;
+        q.push_back((0, start_c));
+    }
+    while let Some((s, ci)) = q.pop_front() {
+        pairs += 1;
+        let c = ctxs[ci];
+        for b in 0..=255u8 {
+            cells += 1;
+            let (want, cnext) = mtab[ci][b as usize];
+            if (ci != start_c || matches!(want, Out::Ev(..))) && !nt_seen[ci * 256 + b as usize] {
+                nt_seen[ci * 256 + b as usize] = true;
+                run.nontrivial_fp(fp(&("cell", M::name(c), b)));
+            }
+            match g.step(s, b) {
+                Step::Panic(p) => {
+                    let hist = g.history(s);
+                    let mut bytes = hist.clone();
+                    bytes.push(b);
+                    run.violation(Violation {
+                        sig: cell_sig::<M>(c, b, &want, &panic_sig(&p)),
+                        what: format!("{set}: byte {:02X} after [{}] panics: {}", b, hex(&hist), p),
+                        case: stream_case::<M::D>(&bytes),
+                    });
                 }
-                let mut bytes = hist.clone();
-                bytes.push(b);
-                match &g.trans[s][b as usize] {
-                    Step::Panic(p) => {
-                        run.violation(Violation {
-                            sig: cell_sig::<M>(c, b, &want, &panic_sig(p)),
-                            what: format!("{set}: byte {:02X} after [{}] panics: {}", b, hex(&hist), p),
-                            case: stream_case::<M::D>(&bytes),
+                Step::Ret(o, snext) => {
+                    match o {
+                        Ok(None) => nones += 1,
+                        Ok(Some(_)) => events += 1,
+                        Err(_) => errors += 1,
+                    }
+                    if cells % 97 == 0 && run.wants_sample() {
+                        let hist = g.history(s);
+                        let o2 = o.clone();
+                        run.sample(|| {
+                            json!({"layer":"graph-product","set":set,"history":hex(&hist),"byte":format!("{:02X}",b),
+                                   "model_context":M::name(c),"expected":want.text(),"observed":sc_out_str(&o2)})
                         });
                     }
-                    Step::Ret(o, snext) => {
-                        match o {
-                            Ok(None) => nones += 1,
-                            Ok(Some(_)) => events += 1,
-                            Err(_) => errors += 1,
+                    let ok = M::accepts(c, b, &o);
+                    let mut follow = ok;
+                    if !ok {
+                        let sig = cell_sig::<M>(c, b, &want, &sc_out_str(&o));
+                        if run.is_known(&sig) {
+                            // listed finding: tolerated; model and implementation are both
+                            // back in their initial state after it (the walk continues from
+                            // (snext, cnext) and would show otherwise)
+                            follow = true;
                         }
-                        if run.wants_sample() || cells % 97 == 0 {
-                            let o2 = o.clone();
-                            run.sample(|| {
-                                json!({"layer":"graph-product","set":set,"history":hex(&hist),"byte":format!("{:02X}",b),
-                                       "model_context":M::name(c),"expected":want.text(),"observed":sc_out_str(&o2)})
-                            });
-                        }
-                        let ok = M::accepts(c, b, o);
-                        let mut follow = ok;
-                        if !ok {
-                            let sig = cell_sig::<M>(c, b, &want, &sc_out_str(o));
-                            if run.is_known(&sig) {
-                                // listed finding: tolerated; model and implementation are both
-                                // back in their initial state after it (checked below by the
-                                // product walk continuing from (snext, cnext))
-                                follow = true;
-                            }
+                        if !run.violations.contains_key(&sig) {
+                            let hist = g.history(s);
+                            let mut bytes = hist.clone();
+                            bytes.push(b);
                             run.violation(Violation {
                                 sig,
                                 what: format!(
                                     "{set} decoder: after [{}] (context {}), byte {:02X} gives {}; the table/automaton require {}",
-                                    hex(&hist), M::name(c), b, sc_out_str(o), want.text()
+                                    hex(&hist), M::name(c), b, sc_out_str(&o), want.text()
                                 ),
                                 case: stream_case::<M::D>(&bytes),
                             });
+                        } else {
+                            run.total_violating_cases += 1;
                         }
-                        if follow && seen.insert((*snext, cnext)) {
-                            q.push_back((*snext, cnext));
-                        }
+                    }
+                    if follow && snext < nexp && !seen[snext * ctxs.len() + cnext] {
+                        seen[snext * ctxs.len() + cnext] = true;
+                        q.push_back((snext, cnext));
                     }
                 }
             }
         }
     }
+    run.eval(cells);
     run.part(
         "graph_product",
-        json!({"impl_states": g.states.len(), "closed": g.closed, "product_pairs": seen.len(),
+        json!({"impl_states": g.states.len(), "impl_states_expanded": nexp, "closed": g.closed, "state_cap": g.cap, "product_pairs": pairs,
                "cells": cells, "event_outputs": events, "error_outputs": errors, "none_outputs": nones}),
     );
 
@@ -650,106 +670,96 @@ fn shadow_exhaustive<D: Dec>(len: usize) -> (u64, u64, Vec<Vec<u8>>) {
 }
 
 fn c07_for<D: Dec>(run: &mut Run) {
-    let g = Graph::<D>::extract();
+    let g = Graph::<D>::extract_with_cap(crate::graph::state_cap(run.tier == Tier::Thorough));
     let mut cells = 0u64;
     if g.closed {
         let classes = g.equivalence_classes();
+        let n = g.expanded();
+        let mut reported = 0usize;
         // (i) every event/error edge leads to a state behaviourally equivalent to new()
-        for s in 0..g.states.len() {
-            let hist = g.history(s);
+        for s in 0..n {
             for b in 0..=255u8 {
                 cells += 1;
-                run.eval(1);
-                let mut bytes = hist.clone();
-                bytes.push(b);
-                match &g.trans[s][b as usize] {
-                    Step::Panic(p) => run.violation(Violation {
-                        sig: format!("{}:state[{}]:byte={:02X}:{}", D::NAME, hex(&hist).replace(' ', "."), b, panic_sig(p)),
-                        what: format!("{} decoder panics on byte {:02X} after [{}]: {}", D::NAME, b, hex(&hist), p),
-                        case: c07_case::<D>(&bytes),
-                    }),
+                match g.step(s, b) {
+                    Step::Panic(p) => {
+                        let hist = g.history(s);
+                        let mut bytes = hist.clone();
+                        bytes.push(b);
+                        run.violation(Violation {
+                            sig: format!("{}:state[{}]:byte={:02X}:{}", D::NAME, hex(&hist).replace(' ', "."), b, panic_sig(&p)),
+                            what: format!("{} decoder panics on byte {:02X} after [{}]: {}", D::NAME, b, hex(&hist), p),
+                            case: c07_case::<D>(&bytes),
+                        });
+                    }
                     Step::Ret(o, j) => {
                         let is_ev_or_err = !matches!(o, Ok(None));
                         if is_ev_or_err && (s != 0 || o.is_err()) {
-                            run.nontrivial_fp(fp(&("edge", D::NAME, s, b)));
+                            run.nontrivial_enum(1);
                         }
-                        if is_ev_or_err && classes[*j] != classes[0] {
-                            // find a distinguishing suffix via the black-box evaluator for the report
-                            let sig = format!(
-                                "{}:not-reset:after=[{}]:out={}",
-                                D::NAME, hex(&bytes).replace(' ', "."), sc_out_str(o)
-                            );
-                            run.violation(Violation {
-                                sig,
-                                what: format!(
-                                    "{} decoder: [{}] ends with {} but leaves the decoder in a state (reached by [{}]) that is not equivalent to a fresh decoder",
-                                    D::NAME, hex(&bytes), sc_out_str(o), hex(&g.history(*j))
-                                ),
-                                case: json!({"kind":"resync_state","set":D::NAME,"bytes":bytes,"hex":hex(&bytes)}),
-                            });
+                        if is_ev_or_err && j < n && classes[j] != classes[0] {
+                            if reported < 24 {
+                                reported += 1;
+                                let hist = g.history(s);
+                                let mut bytes = hist.clone();
+                                bytes.push(b);
+                                run.violation(Violation {
+                                    sig: format!("{}:not-reset:after=[{}]:out={}", D::NAME, hex(&bytes).replace(' ', "."), sc_out_str(&o)),
+                                    what: format!(
+                                        "{} decoder: [{}] ends with {} but leaves the decoder in a state (reached by [{}]) that is not equivalent to a fresh decoder",
+                                        D::NAME, hex(&bytes), sc_out_str(&o), hex(&g.history(j))
+                                    ),
+                                    case: json!({"kind":"resync_state","set":D::NAME,"bytes":bytes,"hex":hex(&bytes)}),
+                                });
+                            } else {
+                                run.total_violating_cases += 1;
+                            }
                         }
-                        if run.wants_sample() && cells % 41 == 0 {
-                            let (o2, j2) = (o.clone(), *j);
-                            let eq = classes[j2] == classes[0];
-                            run.sample(|| json!({"layer":"graph-edge","set":D::NAME,"history":hex(&hist),"byte":format!("{:02X}",b),"output":sc_out_str(&o2),"next_state_equivalent_to_fresh":eq}));
+                        if cells % 41 == 0 && run.wants_sample() {
+                            let hist = g.history(s);
+                            let eq = j < n && classes[j] == classes[0];
+                            run.sample(|| json!({"layer":"graph-edge","set":D::NAME,"history":hex(&hist),"byte":format!("{:02X}",b),"output":sc_out_str(&o),"next_state_equivalent_to_fresh":eq}));
                         }
                     }
                 }
             }
         }
+        run.eval(cells);
         // (ii) longest path of Ok(None) edges
-        let n = g.states.len();
-        let mut best = vec![0usize; n];
-        // iterate n+1 times; growth beyond n means a cycle of None edges (unbounded)
-        let mut unbounded = false;
-        for round in 0..=n + 1 {
-            let mut changed = false;
-            for s in 0..n {
-                for b in 0..256 {
-                    if let Step::Ret(Ok(None), j) = &g.trans[s][b] {
-                        if best[s] < best[*j] + 1 {
-                            best[s] = best[*j] + 1;
-                            changed = true;
+        let (longest, worst) = g.longest_none_path();
+        let too_long = match longest {
+            None => true,
+            Some(l) => l > none_bound::<D>(),
+        };
+        if too_long {
+            // witness: from the worst state follow None edges greedily
+            let mut st = worst;
+            let mut bytes = g.history(st);
+            for _ in 0..none_bound::<D>() + 2 {
+                if let Some(b) = (0..=255u8).find(|b| g.out_is_none(st, *b)) {
+                    bytes.push(b);
+                    if let Step::Ret(_, j) = g.step(st, b) {
+                        if j < n {
+                            st = j;
                         }
                     }
                 }
             }
-            if !changed {
-                break;
-            }
-            if round == n + 1 {
-                unbounded = true;
-            }
-        }
-        let longest = best[0..n].iter().copied().max().unwrap_or(0);
-        if unbounded || longest > none_bound::<D>() {
-            // produce a witness: follow None edges greedily from the worst state
-            let mut s = (0..n).max_by_key(|i| best[*i]).unwrap();
-            let mut bytes = g.history(s);
-            for _ in 0..none_bound::<D>() + 1 {
-                let nb = (0..256).find(|b| matches!(&g.trans[s][*b], Step::Ret(Ok(None), j) if unbounded || best[*j] + 1 == best[s]));
-                if let Some(b) = nb {
-                    bytes.push(b as u8);
-                    if let Step::Ret(_, j) = &g.trans[s][b] {
-                        s = *j;
-                    }
-                }
-            }
+            let before = run.violations.len();
             c07_eval_stream::<D>(run, &bytes);
-            if !run.violations.keys().any(|k| k.contains("none-run")) {
+            if run.violations.len() == before {
                 run.violation(Violation {
-                    sig: format!("{}:none-path={}", D::NAME, if unbounded { "unbounded".to_string() } else { longest.to_string() }),
-                    what: format!("{} decoder: a path of {} consecutive 'no event yet' results exists (bound {})", D::NAME, if unbounded { "unboundedly many".to_string() } else { longest.to_string() }, none_bound::<D>()),
+                    sig: format!("{}:none-path={}", D::NAME, longest.map(|l| l.to_string()).unwrap_or_else(|| "unbounded".into())),
+                    what: format!("{} decoder: a path of {} consecutive 'no event yet' results exists (bound {})", D::NAME, longest.map(|l| l.to_string()).unwrap_or_else(|| "unboundedly many".into()), none_bound::<D>()),
                     case: c07_case::<D>(&bytes),
                 });
             }
         }
         run.part(
             &format!("{}_graph", D::NAME),
-            json!({"states": n, "edges": cells, "equivalence_classes": classes.iter().collect::<BTreeSet<_>>().len(), "longest_none_path": if unbounded { json!("unbounded") } else { json!(longest) }}),
+            json!({"states": n, "edges": cells, "equivalence_classes": classes.iter().collect::<BTreeSet<_>>().len(), "longest_none_path": longest.map(|l| json!(l)).unwrap_or(json!("unbounded"))}),
         );
     } else {
-        run.inconclusive.push(format!("{}: state cap reached, graph layer skipped", D::NAME));
+        run.inconclusive.push(format!("{}: more than {} distinguishable states, graph layer skipped (black-box layers unaffected)", D::NAME, g.cap));
     }
 
     // (iii) black-box shadow differential, exhaustive over all streams of length <= L
@@ -885,9 +895,15 @@ fn c19_forms<D: Dec>(p: Pfx, code: u8) -> (Vec<u8>, Vec<u8>) {
 }
 
 pub fn c19_eval_cell<D: Dec>(run: &mut Run, p: Pfx, code: u8, downs: &mut BTreeMap<String, Vec<(Pfx, u8)>>, ups: &mut BTreeMap<String, Vec<(Pfx, u8)>>) {
-    let (make, brk) = c19_forms::<D>(p, code);
+    c19_eval_cell_after::<D>(run, &[], p, code, downs, ups)
+}
+
+pub fn c19_eval_cell_after<D: Dec>(run: &mut Run, hist: &[u8], p: Pfx, code: u8, downs: &mut BTreeMap<String, Vec<(Pfx, u8)>>, ups: &mut BTreeMap<String, Vec<(Pfx, u8)>>) {
+    let (make0, brk0) = c19_forms::<D>(p, code);
+    let make: Vec<u8> = hist.iter().copied().chain(make0.iter().copied()).collect();
+    let brk: Vec<u8> = hist.iter().copied().chain(brk0.iter().copied()).collect();
     run.eval(1);
-    let case = json!({"kind":"pair_cell","set":D::NAME,"prefix":p.name(),"code":code,"make":hex(&make),"break":hex(&brk)});
+    let case = json!({"kind":"pair_cell","set":D::NAME,"history":hist,"prefix":p.name(),"code":code,"make":hex(&make),"break":hex(&brk)});
     let (m, b) = match (last_out::<D>(&make), last_out::<D>(&brk)) {
         (Ok(m), Ok(b)) => (m, b),
         (Err(e), _) | (_, Err(e)) => {
@@ -919,7 +935,7 @@ pub fn c19_eval_cell<D: Dec>(run: &mut Run, p: Pfx, code: u8, downs: &mut BTreeM
     }
     let mut bad = |sigtail: String, what: String| {
         run.violation(Violation {
-            sig: format!("{}:pair:{}:{:02X}:{}", D::NAME, p.name(), code, sigtail),
+            sig: format!("{}:pair:{}{}:{:02X}:{}", D::NAME, if hist.is_empty() { String::new() } else { format!("after=[{}]:", hex(hist).replace(' ', ".")) }, p.name(), code, sigtail),
             what,
             case: case.clone(),
         });
@@ -1075,11 +1091,116 @@ pub fn c19_eval_after<D: Dec>(run: &mut Run, pre: &[u8], seq: &[u8]) {
     }
 }
 
+/// Pairing and injectivity from every reachable *sequence-boundary* state of the extracted
+/// graph (initial state + every state entered by an event or error), i.e. "after every
+/// history", not only on a fresh decoder. Scan on cloned states; each finding is re-run from
+/// scratch through its witness history for the report.
+fn c19_per_state<D: Dec>(run: &mut Run) {
+    let g = Graph::<D>::extract_with_cap(crate::graph::state_cap(run.tier == Tier::Thorough));
+    let n = g.expanded();
+    let mut boundary = vec![false; n];
+    boundary[0] = true;
+    for s in 0..n {
+        for b in 0..=255u8 {
+            if !g.out_is_none(s, b) {
+                if let Step::Ret(_, j) = g.step(s, b) {
+                    if j < n {
+                        boundary[j] = true;
+                    }
+                }
+            }
+        }
+    }
+    let bstates: Vec<usize> = (0..n).filter(|i| boundary[*i]).collect();
+    let codes: Vec<u8> = if D::IS_SET2 { (0..=255u8).collect() } else { (0..=0x7Fu8).collect() };
+    let cells: Vec<(Pfx, u8, Vec<u8>, Vec<u8>)> = sc::PFXS.iter().flat_map(|p| codes.iter().map(move |c| (*p, *c))).map(|(p, c)| { let (m, b) = c19_forms::<D>(p, c); (p, c, m, b) }).collect();
+    let run_from = |st: &D, bytes: &[u8]| -> Option<ScOut> {
+        let mut d = st.clone();
+        guard(|| { let mut last = Ok(None); for b in bytes { last = d.advance_state(*b); } last }).ok()
+    };
+    // (state index, prefix, code, kind)
+    let bad: Vec<(usize, Pfx, u8, &'static str)> = bstates
+        .par_iter()
+        .flat_map_iter(|&s| {
+            let st = &g.states[s];
+            let mut bad = Vec::new();
+            let mut downs: HashMap<u8, (Pfx, u8)> = HashMap::new();
+            for (p, c, m, b) in &cells {
+                let (om, ob) = (run_from(st, m), run_from(st, b));
+                let (Some(om), Some(ob)) = (om, ob) else { bad.push((s, *p, *c, "panic")); continue };
+                let mk = ev_of(&om);
+                let bk = ev_of(&ob);
+                let ok = match mk {
+                    Some((k, KeyState::Down)) => {
+                        if let Some(prev) = downs.insert(k as u8, (*p, *c)) {
+                            let _ = prev;
+                            bad.push((s, *p, *c, "dup"));
+                        }
+                        bk == Some((k, KeyState::Up))
+                    }
+                    Some((_, KeyState::SingleShot)) => true,
+                    Some((_, KeyState::Up)) => false,
+                    None => !matches!(bk, Some((_, KeyState::Up))) || (matches!(om, Ok(None)) && matches!(ob, Ok(None))),
+                } && !matches!(bk, Some((_, KeyState::Down)))
+                    && !(matches!(bk, Some((_, KeyState::SingleShot))) && !matches!(mk, Some((_, KeyState::SingleShot))));
+                if !ok && bad.len() < 6 {
+                    bad.push((s, *p, *c, "pair"));
+                }
+            }
+            bad.into_iter()
+        })
+        .collect();
+    let cases = (bstates.len() * cells.len()) as u64;
+    run.eval(cases);
+    run.nontrivial_enum(cases.saturating_sub(cells.len() as u64));
+    for (s, p, c, _) in bad.iter().take(16) {
+        let hist = g.history(*s);
+        let (mut d, mut u) = (BTreeMap::new(), BTreeMap::new());
+        c19_eval_cell_after::<D>(run, &hist, *p, *c, &mut d, &mut u);
+    }
+    // duplicates need the whole table of that state: re-scan through the history for the first
+    if let Some((s, _, _, _)) = bad.iter().find(|x| x.3 == "dup") {
+        let hist = g.history(*s);
+        c19_table_after::<D>(run, &hist);
+    }
+    run.total_violating_cases += bad.len().saturating_sub(16) as u64;
+    run.part(&format!("{}_pairs_in_every_boundary_state", D::NAME), json!({"graph_states": g.states.len(), "graph_closed": g.closed, "boundary_states": bstates.len(), "cases": cases, "failing(sampled)": bad.len()}));
+    if !g.closed {
+        run.inconclusive.push(format!("{}: state cap reached; the per-state pairing layer covers the {} states explored", D::NAME, n));
+    }
+}
+
+/// whole make/break table after a history: pairing per cell + injectivity
+fn c19_table_after<D: Dec>(run: &mut Run, hist: &[u8]) {
+    let mut downs: BTreeMap<String, Vec<(Pfx, u8)>> = BTreeMap::new();
+    let mut ups: BTreeMap<String, Vec<(Pfx, u8)>> = BTreeMap::new();
+    let codes: Vec<u8> = if D::IS_SET2 { (0..=255u8).collect() } else { (0..=0x7Fu8).collect() };
+    for p in sc::PFXS {
+        for &c in &codes {
+            c19_eval_cell_after::<D>(run, hist, p, c, &mut downs, &mut ups);
+        }
+    }
+    for (dir, map) in [("make", &downs), ("break", &ups)] {
+        for (k, v) in map.iter() {
+            if v.len() > 1 {
+                let seqs: Vec<String> = v.iter().map(|(p, c)| format!("{}:{:02X}", p.name(), c)).collect();
+                run.violation(Violation {
+                    sig: format!("{}:dup-{}:after=[{}]:{}:{}", D::NAME, dir, hex(hist).replace(' ', "."), k, seqs.join(",")),
+                    what: format!("{}: after [{}], distinct {} sequences {} all denote the key {}", D::NAME, hex(hist), dir, seqs.join(", "), k),
+                    case: json!({"kind":"pair_table_after","set":D::NAME,"history":hist}),
+                });
+            }
+        }
+    }
+}
+
 pub fn c19(run: &mut Run) {
-    run.rule = "Exhaustive, no reference table: for both decoders x 3 prefix contexts x every code byte (256 for Set 2, 128 for Set 1) the make form ([prefix] code) and the break form (Set 2: [prefix] F0 code; Set 1: [prefix] code|0x80) are fed to fresh decoders. Oracle: make yields Down(K) <=> break yields Up(K); no break names a key without a make; the maps sequence -> key are injective on makes and on breaks; one-shot makes are exempt. The same forms are then decoded after every complete sequence (every event-yielding make and break form plus sampled rejected ones) and must decode exactly as on a fresh decoder. Non-trivial = a (set, prefix, code) cell for which make or break yields an event; distinct by that triple.".into();
+    run.rule = "Exhaustive, no reference table: for both decoders x 3 prefix contexts x every code byte (256 for Set 2, 128 for Set 1) the make form ([prefix] code) and the break form (Set 2: [prefix] F0 code; Set 1: [prefix] code|0x80) are fed to fresh decoders. Oracle: make yields Down(K) <=> break yields Up(K); no break names a key without a make; the maps sequence -> key are injective on makes and on breaks; one-shot makes are exempt. The same forms are then decoded after every complete sequence (every event-yielding make and break form plus sampled rejected ones) and must decode exactly as on a fresh decoder; and the pairing/injectivity oracle is applied from every reachable sequence-boundary state of the extracted decoder graph (initial state + every state entered by an event or error, up to the state cap), each finding re-run through its witness history. Non-trivial = a (set, prefix, code) cell for which make or break yields an event; distinct by that triple.".into();
     run.assumptions = vec!["decoders are deterministic; each cell is an independent execution from new()".into()];
     c19_for::<ScancodeSet2>(run);
     c19_for::<ScancodeSet1>(run);
+    c19_per_state::<ScancodeSet2>(run);
+    c19_per_state::<ScancodeSet1>(run);
     run.exhaustive = true;
 }
 
@@ -1285,7 +1406,7 @@ impl Run {
 }
 
 pub fn c13(run: &mut Run) {
-    run.rule = "Exhaustive forward: 3 prefix contexts x Set 2 codes {01..7F, 83, 84} x {make, break}, each Set 2 sequence and the Set 1 sequence the i8042 model derives from it (prefix kept, F0+code -> code|0x80 through the standard 8042 table) fed to fresh decoders; if Set 2 yields an event Set 1 must yield the identical event. Exhaustive converse: every Set 1 (prefix, code, make/break) that yields an event is compared with all its Set 2 pre-images (none may yield a different event, at least one must yield the same). Exhaustive ordered pairs of translatable cells (whatever the first sequence was, the second must still decode to the same event in both sets). End-to-end: random typing scripts (keys, modifiers, and raw defined-or-undefined translatable cells as line noise) rendered to Set 2 bytes, translated, fed to Keyboard<AnyLayout, Set2/Set1> for every layout; events, modifiers and decoded characters must match. Non-trivial = cell defined in at least one set (distinct by (direction, prefix, code, make/break)); script with a modifier held (distinct by byte string + layout).".into();
+    run.rule = "Exhaustive forward: 3 prefix contexts x Set 2 codes {01..7F, 83, 84} x {make, break}, each Set 2 sequence and the Set 1 sequence the i8042 model derives from it (prefix kept, F0+code -> code|0x80 through the standard 8042 table) fed to fresh decoders; if Set 2 yields an event Set 1 must yield the identical event. Exhaustive converse: every Set 1 (prefix, code, make/break) that yields an event is compared with all its Set 2 pre-images (none may yield a different event, at least one must yield the same). Exhaustive ordered pairs of translatable cells (whatever the first sequence was, the second must still decode to the same event in both sets). Product exploration: BFS over all reachable pairs (Set 2 decoder state, Set 1 decoder state) of the extracted graphs under complete translatable cells, every agreeing cell re-judged in every pair. End-to-end: random typing scripts (keys, modifiers, and raw defined-or-undefined translatable cells as line noise) rendered to Set 2 bytes, translated, fed to Keyboard<AnyLayout, Set2/Set1> for every layout; events, modifiers and decoded characters must match. Non-trivial = cell defined in at least one set (distinct by (direction, prefix, code, make/break)); script with a modifier held (distinct by byte string + layout).".into();
     run.assumptions = vec![
         "i8042 table = the standard 8042 Set2->Set1 table (AT technical reference / Brouwer / Linux atkbd), transcribed in model/sc.rs; validated to be a permutation of 01..7F".into(),
         "Set 2 code 84 -> Set 1 54 and 02 -> 41 are tolerated pre-images when Set 2 does not define them (C01 requires 84 unknown because the README gives SysRq = 7F)".into(),
@@ -1359,6 +1480,67 @@ pub fn c13(run: &mut Run) {
     }
     run.total_violating_cases += bad.len().saturating_sub(12) as u64;
     run.part("ordered_cell_pairs", json!({"cells": cells.len(), "cells_agreeing_alone": judged, "pairs_judged": judged * judged, "failing(sampled)": bad.len()}));
+
+    // Product exploration: BFS over reachable PAIRS (Set 2 decoder state, Set 1 decoder state)
+    // under complete translatable cells, on the extracted graphs: every pair any history of
+    // such cells can reach is visited, and in each pair every cell that agrees on fresh
+    // decoders must still agree. (On a tree without hidden decoder state there is one pair.)
+    {
+        let g2 = Graph::<ScancodeSet2>::extract_with_cap(crate::graph::state_cap(run.tier == Tier::Thorough));
+        let g1 = Graph::<ScancodeSet1>::extract_with_cap(crate::graph::state_cap(run.tier == Tier::Thorough));
+        let pair_cap: usize = run.tier.pick(50_000, 400_000);
+        let walk2 = |mut st: usize, bytes: &[u8]| -> Option<(usize, Vec<(KeyCode, KeyState)>)> {
+            let mut evs = Vec::new();
+            for b in bytes {
+                if st >= g2.expanded() { return None; }
+                match g2.step(st, *b) { Step::Ret(o, j) => { if let Some(e) = ev_of(&o) { evs.push(e); } st = j; } Step::Panic(_) => return None }
+            }
+            Some((st, evs))
+        };
+        let walk1 = |mut st: usize, bytes: &[u8]| -> Option<(usize, Vec<(KeyCode, KeyState)>)> {
+            let mut evs = Vec::new();
+            for b in bytes {
+                if st >= g1.expanded() { return None; }
+                match g1.step(st, *b) { Step::Ret(o, j) => { if let Some(e) = ev_of(&o) { evs.push(e); } st = j; } Step::Panic(_) => return None }
+            }
+            Some((st, evs))
+        };
+        let judged: Vec<usize> = (0..cells.len()).filter(|i| alone[*i].2 == alone[*i].3).collect();
+        let mut index: HashMap<(usize, usize), usize> = HashMap::new();
+        let mut pairs: Vec<(usize, usize, Option<(usize, usize)>)> = vec![(0, 0, None)]; // (s2, s1, parent (pair, cell))
+        index.insert((0, 0), 0);
+        let mut head = 0;
+        let mut bad: Vec<(usize, usize)> = Vec::new();
+        let mut steps = 0u64;
+        while head < pairs.len() {
+            let (s2, s1, _) = pairs[head];
+            for &ci in &judged {
+                steps += 1;
+                let (Some((n2, e2)), Some((n1, e1))) = (walk2(s2, &alone[ci].0), walk1(s1, &alone[ci].1)) else { continue };
+                if e2 != e1 {
+                    if bad.len() < 8 { bad.push((head, ci)); }
+                    continue;
+                }
+                if !index.contains_key(&(n2, n1)) && pairs.len() < pair_cap {
+                    index.insert((n2, n1), pairs.len());
+                    pairs.push((n2, n1, Some((head, ci))));
+                }
+            }
+            head += 1;
+        }
+        run.eval(steps);
+        run.nontrivial_enum(steps.saturating_sub(judged.len() as u64));
+        for (pi, ci) in &bad {
+            // Set 2 byte history of the pair, then the cell
+            let mut chain = vec![*ci];
+            let mut cur = *pi;
+            while let Some((pp, pc)) = pairs[cur].2 { chain.push(pc); cur = pp; }
+            chain.reverse();
+            let bytes: Vec<u8> = chain.iter().flat_map(|c| alone[*c].0.iter().copied()).collect();
+            c13_eval_e2e(run, L_US, &bytes);
+        }
+        run.part("reachable_decoder_state_pairs", json!({"set2_graph_states": g2.states.len(), "set1_graph_states": g1.states.len(), "graphs_closed": [g2.closed, g1.closed], "pairs_visited": pairs.len(), "pair_cap": pair_cap, "cell_steps": steps, "failing(sampled)": bad.len()}));
+    }
 
     // end-to-end scripts; keys whose forward cell is a listed known finding are excluded by
     // construction (counted), so the search continues behind the finding
@@ -1501,8 +1683,13 @@ pub fn replay(run: &mut Run, case: &Value) -> bool {
         "pair_cell" => {
             let p = pfx_by_name(case["prefix"].as_str().unwrap_or(""));
             let c = case["code"].as_u64().unwrap_or(0) as u8;
+            let h = bytes_of(&case["history"]);
             let (mut d, mut u) = (BTreeMap::new(), BTreeMap::new());
-            if set2 { c19_eval_cell::<ScancodeSet2>(run, p, c, &mut d, &mut u) } else { c19_eval_cell::<ScancodeSet1>(run, p, c, &mut d, &mut u) }
+            if set2 { c19_eval_cell_after::<ScancodeSet2>(run, &h, p, c, &mut d, &mut u) } else { c19_eval_cell_after::<ScancodeSet1>(run, &h, p, c, &mut d, &mut u) }
+        }
+        "pair_table_after" => {
+            let h = bytes_of(&case["history"]);
+            if set2 { c19_table_after::<ScancodeSet2>(run, &h) } else { c19_table_after::<ScancodeSet1>(run, &h) }
         }
         "pair_after" => {
             let (h, q) = (bytes_of(&case["history"]), bytes_of(&case["seq"]));
